@@ -413,11 +413,19 @@ def run_after_errors(ctx, case):
     rejected = 0
     for k in range(case['n']):
         depth = 1 + k % 4
-        ops = [0x31, []]
-        for _ in range(depth):
-            ops = [0xa3 if k % 2 else 0xf3, [[ops, [0x08, [k & 0xff]]]]]
-        data, _exp = X.encode([ops], le, fmt, asz)
-        bad = data[:-1] if k % 3 else data[:-2] + b'\x03'          # innermost operand cut off / replaced by an operation that lacks its operand
+        if k % 2:
+            ops = [0x31, []]
+            for _ in range(depth):
+                ops = [0xa3 if k % 4 == 1 else 0xf3, [[ops, [0x08, [k & 0xff]]]]]
+            data, _exp = X.encode([ops], le, fmt, asz)
+            bad = data[:-1] if k % 3 else data[:-2] + b'\x03'          # the outermost block is cut short: rejected before any nested block is entered
+        else:
+            # every declared block length is right; the defect is the last operation of the INNERMOST block (its operand is missing, its
+            # LEB128 operand does not end, or the code names no operation), so the rejection happens depth levels down
+            bad = (b'\x08', b'\x03', b'\x91', b'\x10\x80', b'\x02', b'\x50\x23')[(k // 2) % 6]
+            for _ in range(depth):
+                bad = bytes([0xa3 if k % 4 == 0 else 0xf3, len(bad)]) + bad
+            bad = b'\x50' + bad
         try:
             parser.parse_expr(list(bad))
         except Exception:  # noqa   (which exception is not this check's business)
